@@ -1,7 +1,9 @@
 (* C15 — simulation rules are applied exactly as written.  Part 1: rule text and rule list.
-   (Part 2, the effect of rules during simulation, is stated over Net.Tick in C15dyn.) *)
+   Part 2 (below): the effect of rules during a run, over Front/SimRun.v — the simulation loop with the
+   machine as a parameter; its firing functions are the oracle of the correspondence check, which runs
+   cmd/bondmachine -sim on generated machines and rule files. *)
 From Coq Require Import String NArith ZArith List Bool.
-From BM Require Import Front.Simbox Proofs.SimboxProofs.
+From BM Require Import Front.Simbox Proofs.SimboxProofs Front.SimRun Proofs.SimRunProofs.
 Import ListNotations.
 
 (* every rule the parser can produce prints to a string that parses back to the same rule *)
@@ -39,3 +41,54 @@ Example ex_rules :
   parse_rule "absolute:9223372036854775808:set:i0:1" = None /\
   wf_rule (mkRule TRel 7 AGet "p0r1" "unsigned" false) = true.
 Proof. vm_compute. repeat split; reflexivity. Qed.
+
+(* ---------- part 2: the rules during a run (Front/SimRun.v: the simulation loop with the machine as a parameter) ---------- *)
+
+(* a set rule acts at exactly its tick, a periodic one on exactly the multiples of its period, never when suspended *)
+Theorem a_set_rule_acts_at_exactly_the_stated_ticks : forall t r, due_set t r = true <->
+  r_suspended r = false /\ r_action r = ASet /\
+  ((r_timec r = TAbs /\ r_tick r = t) \/ (r_timec r = TRel /\ r_tick r <> 0%N /\ (t mod r_tick r = 0)%N)).
+Proof. exact due_set_spec. Qed.
+Print Assumptions a_set_rule_acts_at_exactly_the_stated_ticks.
+
+(* for any machine whose named objects can be written independently: the sets of a tick change exactly the
+   named objects, to exactly the stated values *)
+Theorem sets_change_exactly_the_named_objects :
+  forall (st : Type) (get : st -> string -> N) (put : st -> string -> N -> st) (lit : string -> N),
+  (forall s o v, get (put s o v) o = v) -> (forall s o o' v, o <> o' -> get (put s o v) o' = get s o') ->
+  (forall rs t s o, (forall r, In r rs -> due_set t r = true -> r_object r <> o) -> get (apply_sets st put lit rs t s) o = get s o) /\
+  (forall rs1 r rs2 t s, due_set t r = true -> (forall r', In r' rs2 -> due_set t r' = true -> r_object r' <> r_object r) ->
+     get (apply_sets st put lit (rs1 ++ r :: rs2) t s) (r_object r) = lit (r_extra r)).
+Proof.
+  intros st get put lit H1 H2. split.
+  - apply sets_leave_the_other_objects_alone; assumption.
+  - apply a_due_set_rule_gives_the_stated_value; assumption.
+Qed.
+Print Assumptions sets_change_exactly_the_named_objects.
+
+(* what is printed at a tick: exactly the objects of the show rules that fire (by tick, by period, on the rising
+   edge of the valid flag, at the stop), each once *)
+Theorem shown_objects_are_those_of_the_firing_rules : forall rs t was now exiting,
+  NoDup (shown rs t was now exiting) /\
+  forall o, In o (shown rs t was now exiting) <-> exists r, In r rs /\ r_object r = o /\ fires t was now exiting r = true.
+Proof. intros. split; [apply shown_nodup|intros o; apply shown_spec]. Qed.
+Print Assumptions shown_objects_are_those_of_the_firing_rules.
+
+(* a suspended rule has no effect at all: a run is the run without the suspended rules, whatever the machine *)
+Theorem suspended_rules_have_no_effect_in_a_run :
+  forall (st : Type) (step : st -> st) get put lit valid n rs stop t s,
+  run st step get put lit valid (filter is_active rs) stop n t s = run st step get put lit valid rs stop n t s.
+Proof. intros. apply suspended_rules_do_nothing. Qed.
+Print Assumptions suspended_rules_have_no_effect_in_a_run.
+
+(* non-vacuity: a counter machine, a periodic set, an on-valid and an on-exit show *)
+Example a_run_with_rules :
+  let rs := [mkRule TRel 3 ASet "c" "10" false; mkRule TRel 2 AShow "c" "unsigned" false; mkRule TAbs 1 ASet "c" "77" true;
+             mkRule TOnValid 0 AShow "d" "unsigned" false; mkRule TOnExit 0 AShow "c" "unsigned" false] in
+  let get (s : N * N) (o : string) := if String.eqb o "c" then fst s else snd s in
+  let put (s : N * N) (o : string) (v : N) := if String.eqb o "c" then (v, snd s) else (fst s, v) in
+  let step (s : N * N) := (fst s + 1, fst s)%N in
+  let valid (s : N * N) (o : string) := (12 <=? fst s)%N in
+  run (N * N) step get put (fun _ => 10%N) valid rs (Some "d") 8 0 (0%N, 0%N) =
+    [[11]; [11]; [12]]%N.
+Proof. vm_compute. reflexivity. Qed.
